@@ -3,4 +3,4 @@ import broker
 
 
 def run(res, tier, seed, replay):
-    return broker.run_property(res, "C11", tier, seed, replay, ["C11", "C11quotes"])
+    return broker.run_property(res, "C11", tier, seed, replay, ["C11", "C11quotes", "C11float"])
